@@ -24,6 +24,11 @@
   inputs (corpus/C05/, `west_misclosure_maps_to_plus_half`, the 300-gon example).
 -/
 import Gama.Lemmas.LinReal
+import Gama.Lemmas.LinJacobian
+import Gama.Lemmas.LinCut
+import Gama.Lemmas.LinPattern
+import Gama.Lemmas.LinXNorth
+import Gama.Lemmas.LinExamples
 namespace Gama.Props.C05
 open Gama Gama.Lin Real
 
@@ -361,6 +366,180 @@ theorem diffs_from_eq_to (fuel : Nat) (o : Obs ℝ) (c : Coord) :
   · intro he; cases hf : o.pfrom.free_xy <;> rw [hf] at he <;> cases c <;> simp [LinOut.pushes, pushes, coeffSum, hf, ← he]
   · intro he; cases hf : o.pfrom.free_xy <;> rw [hf] at he <;> cases c <;> simp [LinOut.pushes, pushes, coeffSum, hf, ← he]
 
+/-! ## round 3: the assembled design matrix of a whole pass (`Model/LinPass.lean`)
+
+  `passFrom σ fuel obs s` is the linearisation loop of `LocalNetwork::project_equations()` over the
+  list of revised observations from the index state `s`: rows exactly as pushed
+  (`add_element(coeff[i], index[i])`), right-hand sides, final index state.  `codeMatrix rows r j`
+  is the value a consumer of the sparse row `r` sees in column `j` (repeated column indices add up).
+  `Net.bumpU σ u t` moves ONE unknown of the network — every role of a row that names the point
+  moves with it.  `RowDeriv k σ ob u v`: `v` is the derivative of the observation function of a row
+  of class `k` wrt `u` (mm / cc; `IsPartial…` of the first part lifted to the network). -/
+
+/-- **the design matrix is the Jacobian.**  For every row whose own exclusion (`d < 1e-6` of
+    `bearing_distance`) does not apply, from any well-formed index state: the entry in the column of
+    any adjusted unknown `u` — everything the row pushed onto that column, whichever of its roles name
+    `u` (from = to, bs = fs, from = bs …; no case is excluded) — is the derivative of the row's
+    observation function wrt `u`; the entry in the column of an unknown none of its roles names is 0.
+    All 13 classes. -/
+theorem C05_design_matrix_is_jacobian (σ : Net ℝ) (fuel : Nat) (obs : List (NObs ℝ)) (s0 : IdxState) (hs0 : s0.WF)
+    (res : PassOut ℝ) (hp : passFrom σ fuel obs s0 = .ok res) (r : Nat) (ob : NObs ℝ) (hr : obs[r]? = some ob)
+    (hreg : Regular ob.kind (σ.view ob)) :
+    (∀ u, σ.isFree u = true → RowDeriv ob.kind σ ob u (codeMatrix res.rows r (res.idx.get u))) ∧
+    (∀ u, (∀ rc ∈ ob.kind.roles, ob.name rc.1 rc.2 ≠ u) → codeMatrix res.rows r (res.idx.get u) = 0) :=
+  Lin.design_matrix_is_jacobian σ fuel obs s0 hs0 res hp r ob hr hreg
+
+/-- the right-hand side stored for row `r` is the one the member function returned (so the
+    `*_rhs` theorems above are statements about `b(r)`) -/
+theorem C05_design_matrix_rhs (σ : Net ℝ) (fuel : Nat) (obs : List (NObs ℝ)) (s0 : IdxState) (hs0 : s0.WF)
+    (res : PassOut ℝ) (hp : passFrom σ fuel obs s0 = .ok res) (r : Nat) (ob : NObs ℝ) (hr : obs[r]? = some ob) :
+    ∃ out, ob.kind.lin fuel (σ.view ob) = .ok out ∧ res.rhs[r]? = some out.rhs ∧
+      res.rows.length = obs.length ∧ res.rhs.length = obs.length := by
+  obtain ⟨out, h1, h2, _⟩ := Lin.passFrom_rows σ fuel obs s0 res hs0 hp r ob hr
+  obtain ⟨_, _, _, h3, h4⟩ := Lin.passFrom_wf σ fuel obs s0 res hs0 hp
+  exact ⟨out, h1, h2, h3, h4⟩
+
+/-- the number of columns (`loclin.unknowns()`) of a pass from the cleared state is the number of
+    DISTINCT adjusted unknowns the rows refer to -/
+theorem C05_design_matrix_columns (σ : Net ℝ) (fuel : Nat) (obs : List (NObs ℝ)) (res : PassOut ℝ)
+    (hp : passFrom σ fuel obs IdxState.init = .ok res) (hreg : ∀ ob ∈ obs, Regular ob.kind (σ.view ob)) :
+    res.idx.maxn = (obs.flatMap (involved σ)).dedup.length := Lin.design_matrix_columns σ fuel obs res hp hreg
+
+/-- the real pass starts from what earlier passes left in the points, after the prologue of
+    `project_equations` with the guard as coded: rows, right-hand sides, number of unknowns and the
+    index of every adjusted unknown are those of the pass from the cleared state -/
+theorem C05_design_matrix_after_prologue (σ : Net ℝ) (fuel : Nat) (obs : List (NObs ℝ)) (s : IdxState) (a : PassOut ℝ)
+    (hreg : ∀ ob ∈ obs, Regular ob.kind (σ.view ob))
+    (hp : passFrom σ fuel obs (s.resetPass (fun i => Gen.Lin.resetGuard (σ.pt i))) = .ok a) :
+    ∃ b, passFrom σ fuel obs IdxState.init = .ok b ∧ a.rows = b.rows ∧ a.rhs = b.rhs ∧
+      a.idx.maxn = b.idx.maxn ∧ ∀ u, σ.isFree u = true → a.idx.get u = b.idx.get u :=
+  Lin.pass_after_prologue σ fuel obs s a hreg hp
+
+/-- `Kind.lin` is the dispatch of the generated `visit` table -/
+theorem C05_kind_is_visit : ∀ k : Kind, Gen.Lin.visit (K := ℝ) k.className = some k.lin := by
+  intro k; cases k <;> rfl
+
+/-! ### the dense matrix `A` (gso, svd, cholesky) -/
+
+/-- network.cpp copies the sparse rows into the dense matrix with `+=` (regenerated flag; the code
+    as first pinned had `=`, see `C05_dense_overwrite_loses_coefficients`; fixed in /repo 52e994b) -/
+theorem C05_dense_assembly_accumulates : Gen.Lin.denseAccumulates = true := rfl
+
+/-- hence the dense matrix holds, entry by entry, what the consumers of the sparse rows see: the
+    Jacobian of `C05_design_matrix_is_jacobian`, for all four algorithms -/
+theorem C05_dense_matrix_is_sparse_sum (rows : List (List (Nat × ℝ))) (r j : Nat) :
+    denseMatrix rows r j = codeMatrix rows r j := by
+  unfold denseMatrix codeMatrix
+  rw [C05_dense_assembly_accumulates, Lin.denseRow_acc]; simp
+
+/-- with `=` instead: the entry is right exactly as long as the row names no unknown twice … -/
+theorem C05_dense_overwrite_ok_without_repeats (row : List (Nat × ℝ)) (j : Nat) (hn : (row.map (·.1)).Nodup) :
+    denseRow false row j 0 = rowSum row j := by
+  rw [Lin.denseRow_overwrite_nodup row j hn]
+  split
+  · rfl
+  · rename_i h
+    clear hn
+    induction row with
+    | nil => rfl
+    | cons e t ih =>
+      obtain ⟨i, v⟩ := e
+      simp only [List.map_cons, List.mem_cons, not_or] at h
+      rw [Lin.rowSum_cons, ← ih h.2]; simp [Ne.symm h.1]
+
+/-- … and wrong as soon as it does: the row of a height difference from a point to itself (−1 and
+    +1 on one column) would leave +1 where the derivative is 0 (former defect, replayed on the C++:
+    corpus/C05/net-dh-self-dense.gkf) -/
+theorem C05_dense_overwrite_loses_coefficients :
+    denseRow false [((1 : Nat), (-1 : ℝ)), (1, 1)] 1 0 = 1 ∧ rowSum [((1 : Nat), (-1 : ℝ)), (1, 1)] 1 = 0 := by
+  constructor
+  · simp [denseRow]
+  · simp [Lin.rowSum_cons, Lin.rowSum_nil]
+
+/-! ## round 3: `PointData::xNorthAngle()` (regenerated, `Gen/XNorth.lean`) -/
+
+/-- the table meets its specification in all 8 axes orientations × 2 angle senses: it is the
+    direction of north seen from the +x axis in the sense in force (clockwise for left-handed
+    angles), i.e. minus the bearing of the +x axis from north, reduced to [0, 400) gon -/
+theorem C05_xnorth_spec : ∀ (cs : CS) (rh : Bool), Gen.XNorth.xNorthGon cs rh = (xNorthSpec cs rh : Int) :=
+  Lin.xnorth_spec
+
+/-- after the mirroring of y for inconsistent axes/angles (`consistent`, regenerated) the +y axis is
+    the +x axis turned by +100 gon in the sense in force, and lcoords.h classifies the 8 codes correctly -/
+theorem C05_internal_axes_turn_in_sense :
+    (∀ (cs : CS) (rh : Bool), senseGon rh (internalY cs rh).az = (senseGon rh cs.xDir.az + 100) % 400) ∧
+    (∀ cs : CS, (Gen.XNorth.leftHandedCoordinates cs = true ↔ cs.yDir.az = (cs.xDir.az + 100) % 400) ∧
+      (Gen.XNorth.rightHandedCoordinates cs = true ↔ cs.xDir.az = (cs.yDir.az + 100) % 400)) :=
+  ⟨Lin.internal_axes_turn_in_sense, Lin.handedness_spec⟩
+
+/-- **azimuth in geographic terms**, every axes / sense combination: with `(dE, dN)` the true ground
+    displacement from → to, `α` its azimuth clockwise from north, and `o` holding gama's internal
+    coordinates (y mirrored when axes and angles are inconsistent), the right-hand side is
+    observed − (azimuth of the line in the sense in force), reduced to (−200 gon, 200 gon] -/
+theorem C05_azimuth_rhs_geographic (cs : CS) (rh : Bool) (dE dN α : ℝ) (fuel : Nat) (o : Obs ℝ) (out : LinOut ℝ)
+    (hx : dX o = comp cs.xDir dE dN) (hy : dY o = ySign cs rh * comp cs.yDir dE dN)
+    (hN : o.xNorth = Gen.XNorth.xNorthAngle cs rh) (hα : IsPolarAngle dN dE α)
+    (h : ¬ hdist o < CUT) (hok : Gen.Lin.azimuth fuel o = .ok out) :
+    IsWrapOf ((o.value - (if rh then -α else α)) * R2CC) out.rhs :=
+  Lin.azimuth_rhs_geographic cs rh dE dN α fuel o out hx hy hN hα h hok
+
+/-! ## round 3: inside the cut of `bearing_distance` (`hdist o < CUT`)
+
+  `KF 0 = 2000/π/0` is the factor `10*R2G/d` with the reported distance 0; it is kept unevaluated
+  (ℝ: 0 by Lean's `x/0 = 0`; `double`: `+inf`, so the coefficients are `±inf` / `NaN` there). -/
+
+/-- a distance shorter than the cut is total and returns the fixed finite row: 0 on both `y`,
+    −1 / +1 on `x` of the adjusted end points, right-hand side = the whole observed value -/
+theorem C05_below_cut_distance (fuel : Nat) (o : Obs ℝ) (h : hdist o < CUT) :
+    Gen.Lin.distance fuel o = .ok ⟨o.value * 1000,
+      xyBlock o.pfrom.free_xy .pfrom 0 (-1) ++ xyBlock o.pto.free_xy .pto 0 1⟩ := Lin.distance_cut fuel o h
+
+/-- direction inside the cut: the bearing is taken as 0 (right-hand side = wrapped observed value +
+    orientation), the orientation gets −1, the end points get `KF 0`-multiples of (cos 0, sin 0) -/
+theorem C05_below_cut_direction (fuel : Nat) (o : Obs ℝ) (out : LinOut ℝ) (h : hdist o < CUT)
+    (hok : Gen.Lin.direction fuel o = .ok out) :
+    IsWrapOf ((o.value + o.orientation) * R2CC) out.rhs ∧
+    out.evs = [Ev.touch .station .ori] ++ [Ev.push .station .ori (-1)] ++
+      xyBlock o.pfrom.free_xy .pfrom (-(KF 0 * 1)) (KF 0 * 0) ++ xyBlock o.pto.free_xy .pto (KF 0 * 1) (-(KF 0 * 0)) :=
+  Lin.direction_cut fuel o out h hok
+
+theorem C05_below_cut_azimuth (fuel : Nat) (o : Obs ℝ) (out : LinOut ℝ) (h : hdist o < CUT)
+    (hok : Gen.Lin.azimuth fuel o = .ok out) :
+    IsWrapOf ((o.value + o.xNorth) * R2CC) out.rhs ∧
+    out.evs = xyBlock o.pfrom.free_xy .pfrom (-(KF 0 * 1)) (KF 0 * 0) ++ xyBlock o.pto.free_xy .pto (KF 0 * 1) (-(KF 0 * 0)) :=
+  Lin.azimuth_cut fuel o out h hok
+
+/-- angle, ANY regime (either sight inside or outside the cut): right-hand side and pushes in terms
+    of the bearings / distances as `bearing_distance` reports them (`bC, dC` for the backsight,
+    `bC2, dC2` for the foresight: 0 inside the cut) -/
+theorem C05_angle_any_regime (fuel : Nat) (o : Obs ℝ) (out : LinOut ℝ) (hok : Gen.Lin.angle fuel o = .ok out) :
+    IsWrapOf ((o.value - angleC o) * R2CC) out.rhs ∧
+    out.evs =
+      xyBlock o.pfrom.free_xy .pfrom (-(KF (dC2 o) * Real.cos (bC2 o)) + KF (dC o) * Real.cos (bC o))
+        (KF (dC2 o) * Real.sin (bC2 o) - KF (dC o) * Real.sin (bC o)) ++
+      xyBlock o.pto.free_xy .pto (-(KF (dC o) * Real.cos (bC o))) (KF (dC o) * Real.sin (bC o)) ++
+      xyBlock o.pfs.free_xy .pfs (KF (dC2 o) * Real.cos (bC2 o)) (-(KF (dC2 o) * Real.sin (bC2 o))) :=
+  Lin.angle_form fuel o out hok
+
+/-- angle whose backsight is inside the cut (e.g. from = bs): the observed angle is compared with
+    the bare foresight bearing -/
+theorem C05_below_cut_angle_backsight (fuel : Nat) (o : Obs ℝ) (out : LinOut ℝ) (h : hdist o < CUT)
+    (hok : Gen.Lin.angle fuel o = .ok out) :
+    IsWrapOf ((o.value - bC2 o) * R2CC) out.rhs ∧
+    out.evs =
+      xyBlock o.pfrom.free_xy .pfrom (-(KF (dC2 o) * Real.cos (bC2 o)) + KF 0 * 1) (KF (dC2 o) * Real.sin (bC2 o) - KF 0 * 0) ++
+      xyBlock o.pto.free_xy .pto (-(KF 0 * 1)) (KF 0 * 0) ++
+      xyBlock o.pfs.free_xy .pfs (KF (dC2 o) * Real.cos (bC2 o)) (-(KF (dC2 o) * Real.sin (bC2 o))) :=
+  Lin.angle_cut_bs fuel o out h hok
+
+/-- in every regime the unknowns that receive a coefficient are the adjusted ones among the roles of
+    the class, in program order, and the unknowns touched likewise — the cut changes coefficient
+    VALUES only, never the sparsity pattern or the numbering (generalises the `*_only_free`
+    theorems above: no `¬ hdist o < CUT`) -/
+theorem C05_cut_keeps_pattern (k : Kind) (fuel : Nat) (o : Obs ℝ) (out : LinOut ℝ) (hok : k.lin fuel o = .ok out) :
+    targets out.pushes = k.roles.filter (freeAt o) ∧ touches out.evs = k.touchList.filter (freeAt o) :=
+  ⟨Lin.pushes_of_ok k fuel o out hok, Lin.touches_of_ok k fuel o out hok⟩
+
 /-! ## non-vacuity -/
 
 /-- a concrete sight (3-4-5 triangle, both points free) meets the hypotheses of the
@@ -409,5 +588,53 @@ example : ∃ o : Obs ℝ, o.pto = o.pfs ∧ ¬ hdist o < CUT ∧ ∃ fuel out, 
 /-- a state with a stale height index: the prologue with the coded guard clears it -/
 example : ((IdxState.init.touch ⟨7, .z⟩).resetPass (fun _ => true)).get ⟨7, .z⟩ = 0 ∧
     (IdxState.init.touch ⟨7, .z⟩).get ⟨7, .z⟩ = 1 := by decide
+
+/-- round 3: a pass (a point levelled to itself, then a 5 m distance between two free points) meets
+    every hypothesis of `C05_design_matrix_is_jacobian` / `_columns` / `_rhs` -/
+example : ∃ res, passFrom Lin.exNet 0 Lin.exObs IdxState.init = .ok res ∧ IdxState.init.WF ∧
+    (∀ ob ∈ Lin.exObs, Regular ob.kind (Lin.exNet.view ob)) ∧ Lin.exObs[1]? = some ⟨.distance, 0, 7, 8, 0, 5⟩ ∧
+    Lin.exNet.isFree ⟨7, .z⟩ = true ∧ Lin.exNet.isFree ⟨8, .x⟩ = true := by
+  have hc : ¬ hdist (Lin.exNet.view ⟨.distance, 0, 7, 8, 0, 5⟩) < CUT := by rw [Lin.ex_hdist]; unfold CUT; norm_num
+  have hp : ∃ res, passFrom Lin.exNet 0 Lin.exObs IdxState.init = .ok res := by
+    simp only [Lin.exObs, passFrom, Kind.lin, h_diff_eq, distance_eq _ _ hc]
+    exact ⟨_, rfl⟩
+  obtain ⟨res, hres⟩ := hp
+  refine ⟨res, hres, IdxState.wf_init, ?_, rfl, ?_, ?_⟩
+  · intro ob hob
+    simp [Lin.exObs] at hob
+    rcases hob with rfl | rfl
+    · trivial
+    · exact hc
+  · simp [Net.isFree, Lin.exNet, Pt.free_z, Status.isFree]
+  · simp [Net.isFree, Lin.exNet, Pt.free_xy, Status.isFree]
+
+/-- round 3, `C05_azimuth_rhs_geographic`: axes `en`, left-handed angles (inconsistent: y is mirrored), a line due north of 100 m -/
+example : ∃ (o : Obs ℝ) (fuel : Nat) (out : LinOut ℝ),
+    dX o = comp CS.EN.xDir 0 100 ∧ dY o = ySign .EN false * comp CS.EN.yDir 0 100 ∧
+    o.xNorth = Gen.XNorth.xNorthAngle .EN false ∧ IsPolarAngle (100:ℝ) 0 0 ∧ ¬ hdist o < CUT ∧
+    Gen.Lin.azimuth fuel o = .ok out := by
+  let o : Obs ℝ := { pfrom := ⟨0, 0, 0, .free, .free⟩, pto := ⟨0, -100, 0, .free, .free⟩, pfs := ⟨0, 0, 0, .free, .free⟩,
+                     value := 0, orientation := 0, xNorth := Gen.XNorth.xNorthAngle .EN false }
+  have hd : hdist o = 100 := by
+    simp [hdist, dX, dY, o]
+  have hc : ¬ hdist o < CUT := by rw [hd]; unfold CUT; norm_num
+  obtain ⟨fuel, out, hk⟩ := Lin.azimuth_terminates o hc
+  refine ⟨o, fuel, out, by simp [dX, o, comp, CS.xDir], ?_, rfl, ?_, hc, hk⟩
+  · simp [dY, o, comp, CS.yDir, ySign, Gen.XNorth.consistent, Gen.XNorth.leftHandedCoordinates, Gen.XNorth.csIndex]
+  · constructor <;> simp
+
+/-- round 3, `C05_below_cut_*`: a sight from a point to itself is inside the cut, and `direction` returns there -/
+example : ∃ (o : Obs ℝ) (out : LinOut ℝ), hdist o < CUT ∧ o.pfrom = o.pto ∧ Gen.Lin.direction 1 o = .ok out := by
+  let o : Obs ℝ := { pfrom := ⟨1, 2, 0, .free, .free⟩, pto := ⟨1, 2, 0, .free, .free⟩, pfs := ⟨0, 0, 0, .free, .free⟩,
+                     value := 0, orientation := 0, xNorth := 0 }
+  have hd : hdist o < CUT := by
+    have : hdist o = 0 := by simp [hdist, dX, dY, o]
+    rw [this]; exact Lin.CUT_pos
+  have hex : ∃ out, Gen.Lin.direction 1 o = .ok out := by
+    simp only [Gen.Lin.direction, Lin.bd_fst, Lin.bd_snd, Lin.bC_cut hd, Lin.dC_cut hd]
+    simp [whileLoop, o]
+    norm_num
+  obtain ⟨out, hout⟩ := hex
+  exact ⟨o, out, hd, rfl, hout⟩
 
 end Gama.Props.C05
